@@ -37,6 +37,9 @@ type ircConn struct {
 	// writeDelay is used to keep track of rate limiting of events sent to
 	// the server.
 	writeDelay time.Duration
+	// lastRate is the last time rate() was called, i.e. the time up to which
+	// writeDelay has already been credited for elapsed time.
+	lastRate time.Time
 	// connected is true if we're actively connected to a server.
 	connected bool
 	// connTime is the time at which the client has connected to a server.
@@ -518,7 +521,17 @@ func (c *Client) write(event *Event) {
 func (c *ircConn) rate(chars int) time.Duration {
 	_time := time.Second + ((time.Duration(chars) * time.Second) / 100)
 
-	if c.writeDelay += _time - time.Since(c.lastWrite); c.writeDelay < 0 {
+	// Credit the time that passed since the last write, but every stretch of
+	// time only once: lastWrite is stamped by sendLoop, asynchronously to the
+	// callers of Send, so several calls in a row can see the same lastWrite.
+	now := time.Now()
+	since := c.lastWrite
+	if c.lastRate.After(since) {
+		since = c.lastRate
+	}
+	c.lastRate = now
+
+	if c.writeDelay += _time - now.Sub(since); c.writeDelay < 0 {
 		c.writeDelay = 0
 	}
 
